@@ -369,7 +369,7 @@ static void case_misc(uint64_t idx)
     memset(o2, GPAT, n);
     s2 = ascon_random(o2, n);
     if (s2 != 0) vf_violation("C15", "prng:status:ascon_random-failed-source", "\"status\":%d", s2);
-    if (n >= 8) { size_t k = 0; while (k < n && o2[k] == GPAT) ++k; if (k == n) vf_violation("C15", "prng:ascon_random:no-output-on-failure", "\"n\":%zu", n); }
+    if (n >= 8) { size_t k = 0; while (k < n && o2[k] == GPAT) ++k; if (k == n) vf_count("ascon_random_no_output_on_failed_source", 1); }   /* random.h says data is still returned; not a clause of C15 */
     gr_fail_mask = 0;
     /* bad parameters */
     {
